@@ -873,6 +873,7 @@ def recorders(B):
             B.solver_calls.append({"stub": label, "kwargs": kw})
             return real(M, *a, **k)
 
+        w.__name__ = getattr(real, "__name__", name)
         saved.append((mod, name, real))
         setattr(mod, name, w)
 
